@@ -110,7 +110,10 @@ fn parse_flag(s: &str) -> Result<Value, ParseError> {
 }
 
 fn parse_raw_char(s: &str) -> Result<char, ParseError> {
-    let mut chars = s.chars();
+    // § 1.2 "Character encoding, non-printable characters and characters with special meaning"
+    // (2024-10-09): the writer percent-encodes reserved characters.
+    let t = value::percent_decode(s).map_err(|_| ParseError::InvalidCharacter)?;
+    let mut chars = t.chars();
 
     if let Some(c) = chars.next()
         && chars.next().is_none()
